@@ -5,7 +5,10 @@ namespace Oracle.C07
 
 def suites : List (String × Suite) := [
   ("future", Oracle.Future.model),
-  ("future-judge", Oracle.Future.judge)
+  ("future-judge", Oracle.Future.judge),
+  ("ask-judge", Oracle.Future.askJudge),
+  ("future-facts", Oracle.Future.factsSuite),
+  ("future-race-judge", Oracle.Future.raceJudge)
 ]
 
 end Oracle.C07
